@@ -2,6 +2,7 @@ package c06
 
 import (
 	"context"
+	"crypto/tls"
 	"encoding/binary"
 	"fmt"
 	"io"
@@ -49,7 +50,7 @@ func runLive(e *core.Env) {
 func liveRound(e *core.Env, round, per int, dns *svx.FakeDNS) {
 	rec := e.Rec
 	r := core.NewRNG(e.Seed, "c06.live", round)
-	p := svx.FreePorts(10)
+	p := svx.FreePorts(12)
 	dir := filepath.Join(e.WorkDir, fmt.Sprintf("live-%d", round))
 	os.MkdirAll(dir, 0o755)
 	defer os.RemoveAll(dir)
@@ -64,17 +65,20 @@ func liveRound(e *core.Env, round, per int, dns *svx.FakeDNS) {
 	}{
 		{"socks", "socks5", both}, {"socksauth", "socks5auth", tcpOnly}, {"http", "http", tcpOnly}, {"httpauth", "httpauth", tcpOnly},
 		{"none", "none", both}, {"ss", "ss128", both}, {"ssm", "ssmulti", both},
+		// HTTPS proxy: hostile bytes in place of the TLS handshake, and hostile HTTP inside an established TLS session
+		{"httptls", "httptls", tcpOnly},
 	}
 	var sdocs []any
 	for i, s := range servers {
 		sdocs = append(sdocs, t.Server(s.name, s.proto, p[i], s.o))
 	}
-	tun := t.Server("tun", "socks5", p[7], both)
+	tun := t.Server("tun", "socks5", p[10], both)
 	tun["protocol"] = "direct"
-	tun["tunnelRemoteAddress"] = fmt.Sprintf("127.0.0.2:%d", p[8])
+	tun["tunnelRemoteAddress"] = fmt.Sprintf("127.0.0.2:%d", p[11])
 	sdocs = append(sdocs, tun)
 	cfg := map[string]any{
 		"servers": sdocs,
+		"certs":   t.Certs(),
 		"clients": []any{svx.Direct("direct")},
 		"router": map[string]any{
 			"domainSets": []any{map[string]any{"name": "ds", "path": dsPath}},
@@ -100,15 +104,15 @@ func liveRound(e *core.Env, round, per int, dns *svx.FakeDNS) {
 	viol := func(kind, format string, a ...any) {
 		rec.Violate("live", round, core.Sig("kind", kind, "part", "live"), map[string]any{"logs": inst.LogLines(20)}, format, a...)
 	}
-	if !inst.WaitLogs("relay service listener", 13, 40*time.Second) {
-		viol("listeners_not_started", "only %d of 13 listeners started", inst.CountLogs("relay service listener"))
+	if !inst.WaitLogs("relay service listener", 14, 40*time.Second) {
+		viol("listeners_not_started", "only %d of 14 listeners started", inst.CountLogs("relay service listener"))
 		return
 	}
 	udpT, _ := svx.NewUDPTarget("E", "127.0.0.3", 0)
 	defer udpT.Close()
 	tcpT, _ := svx.NewTCPTarget("ET", "127.0.0.3", 0, "echo", nil)
 	defer tcpT.Close()
-	tunU, _ := svx.NewUDPTarget("TUN", "127.0.0.2", p[8])
+	tunU, _ := svx.NewUDPTarget("TUN", "127.0.0.2", p[11])
 	defer tunU.Close()
 	dns.Set("exact.example", "127.0.0.3")
 
@@ -122,7 +126,7 @@ func liveRound(e *core.Env, round, per int, dns *svx.FakeDNS) {
 			return socksSeed(r, false)
 		case "socksauth":
 			return socksSeed(r, true)
-		case "http", "httpauth":
+		case "http", "httpauth", "httptls":
 			return httpSeed(r)
 		case "none":
 			return append(hostileAddr(r), r.Bytes(r.Intn(30))...)
@@ -173,7 +177,7 @@ func liveRound(e *core.Env, round, per int, dns *svx.FakeDNS) {
 	}{"tun", "direct", both}) {
 		port := p[i]
 		if s.name == "tun" {
-			port = p[7]
+			port = p[10]
 		}
 		for k := 0; k < per; k++ {
 			in := hostileTCP(s.name)
@@ -187,6 +191,40 @@ func liveRound(e *core.Env, round, per int, dns *svx.FakeDNS) {
 				return
 			}
 			tc := c.(*net.TCPConn)
+			if s.name == "httptls" && r.Chance(2, 3) {
+				// inside TLS: complete the handshake (bounded in real time), then send the hostile HTTP through it
+				if tcfg, err := t.TLSClientConfig(false); err == nil {
+					tl := tls.Client(c, tcfg)
+					hs := make(chan error, 1)
+					go func() { hs <- tl.Handshake() }()
+					var herr error
+					if !svx.Poll(10*time.Second, func() bool {
+						select {
+						case herr = <-hs:
+							return true
+						default:
+							return false
+						}
+					}) || herr != nil {
+						tc.Close()
+						viol("tls_handshake_not_served", "the HTTPS proxy listener did not complete a genuine TLS handshake after %d hostile inputs: %v", blasted, herr)
+						return
+					}
+					tl.Write(in)
+					if r.Bool() {
+						tl.CloseWrite()
+					}
+					rec.Count("hostile_inputs_inside_tls", 1)
+					vtime.RealSleep(time.Millisecond)
+					tc.Close()
+					blasted++
+					continue
+				}
+			}
+			if s.name == "httptls" && r.Bool() {
+				// something that starts like a TLS record / ClientHello
+				in = append([]byte{0x16, 3, byte(r.Pick(1, 3)), byte(r.Intn(2)), byte(r.Intn(256)), 1, 0, byte(r.Intn(2)), byte(r.Intn(256)), 3, 3}, in...)
+			}
 			tc.Write(in)
 			switch r.Intn(4) {
 			case 0:
@@ -319,7 +357,7 @@ func liveRound(e *core.Env, round, per int, dns *svx.FakeDNS) {
 	served := 0
 	for i, s := range servers {
 		ccfg := t.ClientFor("g", s.name, s.proto, p[i], 0, true, s.o.UDP)
-		hc, err := svx.NewClient(svx.JSON(ccfg))
+		hc, err := svx.NewClientTLS(svx.JSON(ccfg), t)
 		if err != nil {
 			viol("client_build_failed", "%s: %v", s.name, err)
 			return
